@@ -249,7 +249,19 @@ pub fn record(args: &[String]) {
         out.rec(&json!({"ev": "reset"}));
         events += 1;
         let n = 1 + r.below(len);
-        for _ in 0..n {
+        // every third history opens with a fixed probe: collections of values that carry syntax characters, searched, joined and
+        // converted by the script-implemented commands (the values must be stored and compared verbatim)
+        let mut pending: Vec<(&str, String, Vec<String>)> = vec![];
+        if hist % 3 == 0 {
+            let sp = ["#x", "a\nb", "say \"hi\"", " ", "=", "\t", "a b", ""];
+            let (v1, v2, v3) = (sp[hist / 3 % sp.len()].to_string(), sp[(hist / 3 + 3) % sp.len()].to_string(), sp[(hist / 3 + 5) % sp.len()].to_string());
+            pending = vec![("array", String::new(), vec![v1.clone(), v2.clone(), v3.clone()]), ("array_contains", "h1".into(), vec![v1.clone()]), ("array_contains", "h1".into(), vec![v3.clone()]),
+                           ("array_contains", "h1".into(), vec!["absent".into()]), ("array_join", "h1".into(), vec![",".into()]), ("set_from_array", "h1".into(), vec![]),
+                           ("set_contains", "h2".into(), vec![v2.clone()]), ("map", String::new(), vec![]), ("map_put", "h3".into(), vec![v1.clone(), v2.clone()]),
+                           ("map_contains_value", "h3".into(), vec![v2.clone()]), ("map_contains_key", "h3".into(), vec![v1.clone()]), ("map_get", "h3".into(), vec![v1.clone()])];
+            pending.reverse();
+        }
+        for _ in 0..(n + pending.len()) {
             let created = bij.len() as u64;
             let live_refs: Vec<String> = (1..=created).map(|i| format!("h{}", i)).collect();
             let href = if created == 0 || r.chance(1, 12) { "bogus".to_string() } else { r.pick(&live_refs).clone() };
@@ -287,6 +299,7 @@ pub fn record(args: &[String]) {
                 34 if can_create => ("set_from_array", href, vec![]),
                 _ => ("array_length", href, vec![]),
             };
+            let (cmd, h, a) = match pending.pop() { Some(x) => x, None => (cmd, h, a) };
             let op = json!({"cmd": cmd, "h": h, "args": a});
             let before = bij.len();
             let mut b2 = bij.clone();
